@@ -7,6 +7,8 @@
 //!   sim mkreplay ...           write the (unminimised) replay file of one run index without executing it
 //!   sim selftest               harness self-checks (reference arithmetic, shapes deliver the bytes)
 
+#![allow(dead_code)]
+
 mod alloc;
 mod common;
 mod gen;
